@@ -26,7 +26,8 @@ type vMetaEnv struct {
 	noRow   bool
 	metaKey []byte
 	calls   int
-	rows    []*pb.Result // table listing (lookupAllRegions): all rows, in one response
+	rows    []*pb.Result        // table listing (lookupAllRegions): all rows, in one response
+	mkRows  func() []*pb.Result // ... built afresh for every request (the scanner consumes the slice it is given)
 	fails   int          // the first so many scans of hbase:meta fail
 	failed  int
 }
@@ -46,6 +47,10 @@ func vMetaSendRPC(c *client, rpc hrpc.Call) (proto.Message, error) {
 	if e.failed < e.fails {
 		e.failed++
 		return nil, vErrMeta
+	}
+	if e.mkRows != nil {
+		region.VerifResetWire() // what an abandoned earlier attempt has not decoded is gone
+		e.rows = e.mkRows()
 	}
 	if e.rows != nil {
 		e.req = sc.ToProto().(*pb.ScanRequest)
@@ -175,4 +180,52 @@ func VerifLookupAllPacing() {
 		verifAssert(d == (16*time.Millisecond)<<uint(i), "the waits follow the schedule")
 	}
 	verifReach("paced")
+}
+
+// VerifCacheRegions (C01 / C20): CacheRegions lists the table in hbase:meta (two regions split
+// at an arbitrary key, on one server or on two) and establishes them: afterwards both regions
+// are cached and available, every key of the table is routed to the region that contains it,
+// and regions on the same server share one connection that was dialled once.
+func VerifCacheRegions() {
+	c, e := vCluSetup()
+	c.regionLookupTimeout = time.Hour
+	m := &vMetaEnv{}
+	vMeta = m
+	split := verifBytesN(1)
+	addr2 := "rs0:1"
+	if verifBool() {
+		addr2 = "rs1:1"
+	}
+	m.mkRows = func() []*pb.Result {
+		return []*pb.Result{vMetaRow(0, 1, nil, split, "rs0:1"), vMetaRow(0, 2, split, nil, addr2)}
+	}
+	err := c.CacheRegions([]byte("t"))
+	region.VerifResetWire()
+	verifQuiesce()
+	sleepAndIncreaseBackoffOverride = nil
+	verifAssert(err == nil, "the table is listed")
+	regs := vTreeContents(&c.regions)
+	verifAssert(len(regs) == 2, "both regions are cached")
+	for i, r := range regs {
+		verifAssert(!r.IsUnavailable() && r.Client() != nil, "a listed region is established and available")
+		want := "rs0:1"
+		if i == 1 {
+			want = addr2
+		}
+		verifAssert(r.Client().Addr() == want, "a region is served through the server hbase:meta lists for it")
+	}
+	if addr2 == "rs0:1" {
+		verifAssert(regs[0].Client() == regs[1].Client() && e.made["rs0:1"] == 1, "regions of one server share one connection")
+	} else {
+		verifAssert(e.made["rs0:1"] == 1 && e.made["rs1:1"] == 1, "one connection per server")
+	}
+	k := verifBytes(1)
+	got := c.getRegionFromCache([]byte("t"), k)
+	wantReg := regs[0]
+	if bytes.Compare(k, split) >= 0 {
+		wantReg = regs[1]
+	}
+	verifAssert(got == wantReg, "every key of the table is routed to the region that contains it")
+	verifAssert(verifGoroutines() == 0, "the establishers are done")
+	verifReach("cached")
 }
